@@ -160,6 +160,13 @@ class GenModel(torch.nn.Module):
 		self.head = torch.nn.Sequential(*head)
 		self.n_args = spec.get("n_args", 0)
 		self.multi = spec.get("multi_output", False)
+		if spec.get("alias_act"):
+			# the same activation object reachable through a second parent
+			for m in list(self.trunk) + list(self.head):
+				if type(m).__module__.startswith("torch.nn.modules.activation") or \
+						isinstance(m, CustomAct):
+					self.alias_act = m
+					break
 
 	def forward(self, X, *args):
 		h = self.trunk(X).reshape(X.shape[0], -1)
@@ -190,6 +197,13 @@ def build_model(spec):
 		m.train()
 	else:
 		m.eval()
+	if spec.get("mixed_mode"):
+		# root in eval mode, one stateful/random sub-module left in training mode
+		m.eval()
+		for sub in m.modules():
+			if isinstance(sub, (torch.nn.BatchNorm1d, torch.nn.Dropout)):
+				sub.train()
+				break
 	return m
 
 
@@ -262,7 +276,8 @@ def gen_spec(r, L=None, need_nonlinear=True, allow_custom=True, allow_args=True,
 		"multi_output": bool(multi_output), "uses_custom": uses_custom,
 		"wseed": r.subseed(), "wscale": r.choice([0.3, 0.7, 1.2]),
 		"dtype": r.choice(["float64", "float64", "float32"]),
-		"train_mode": r.chance(0.3)}
+		"train_mode": r.chance(0.3), "alias_act": r.chance(0.15),
+		"mixed_mode": r.chance(0.15)}
 
 
 def gen_onehot(seed, n, L, n_zero_cols=0, alphabet=4, dtype=torch.float64):
